@@ -84,6 +84,21 @@ def showDesc : Option Spec.NumDesc → String
   | some (.dec d e) => s!"dec:{d}:{e}"
   | none => "none"
 
+def parts? (s : String) : Option (List InterpPart) :=
+  if s == "-" then some []
+  else (s.splitOn ",").mapM fun item =>
+    match item.toList with
+    | 'S' :: rest => (hexToBytes? (String.ofList rest)).map InterpPart.str
+    | 'V' :: rest => (hexToBytes? (String.ofList rest)).map InterpPart.val
+    | _ => none
+
+def showPieces : Option (List Spec.InterpPiece) → String
+  | none => "none"
+  | some [] => "some:-"
+  | some ps => "some:" ++ ",".intercalate (ps.map fun
+      | .str v => "S" ++ bytesToHex v
+      | .val t => "V" ++ bytesToHex t)
+
 def showNumExpr : NumExpr UInt64 → String
   | .lit n => "L(" ++ showNumLit n ++ ")"
   | .neg e => "N(" ++ showNumExpr e ++ ")"
@@ -145,6 +160,30 @@ def handle (op : String) (args : List String) : String :=
     match hexToBytes? h with
     | some t => toString (hexFloatShape t)
     | none => "bad-args"
+  -- a number node through the three generators: model texts, and the values of the REAL texts
+  | "numg", [lit, hd, hr, ht] =>
+    match numLit? lit, hexToBytes? hd, hexToBytes? hr, hexToBytes? ht with
+    | some l, some d, some r, some t =>
+      -- `readableWriteNumber` and `tokenBasedWriteNumber` are the same function applied to the
+      -- same node: evaluated once; equal real texts are evaluated once
+      let md := bytesToHex (genWriteNumber floatOps .dense l)
+      let mr := bytesToHex (genWriteNumber floatOps .readable l)
+      let vd := showOptBits (Spec.evalWritten d)
+      let vr := if r == d then vd else showOptBits (Spec.evalWritten r)
+      let vt := if t == d then vd else showOptBits (Spec.evalWritten t)
+      " ".intercalate [md, mr, mr, vd, vr, vt]
+    | _, _, _, _ => "bad-args"
+  -- a whole interpolated string: model text for the parts, pieces of the REAL text
+  | "istr", [ps, hr] =>
+    match parts? ps, hexToBytes? hr with
+    | some parts, some r =>
+      bytesToHex (writeInterpolatedString parts) ++ " " ++ showPieces (Spec.decodeInterpString r)
+    | _, _ => "bad-args"
+  -- the text the dense/readable generators push for a string after a piece ending with `lastPush`
+  | "gstr", [hl, hv] =>
+    match hexToBytes? hl, hexToBytes? hv with
+    | some l, some v => bytesToHex (generatorWriteString l v)
+    | _, _ => "bad-args"
   | "wnum", [lit] =>
     match numLit? lit with
     | some l => bytesToHex (writeNumber floatOps l)
